@@ -151,6 +151,23 @@ func (e *Eng) specBuiltin(x *ast.CallExpr, c *ctx) (Val, bool) {
 				panic("spec: dyntypeis: unknown type " + tn)
 			}
 			return Val{K: KBool, T: e.dynTypeIs(v, t)}, true
+		case "has":
+			// has(m, k): the key is present in the map (or read-only table)
+			k := e.eval(x.Args[1], c)
+			if id, ok := x.Args[0].(*ast.Ident); ok {
+				if o, ok := e.lookupNameSafe(id.Name, c).(*types.Var); ok && isPkgLevel(o) {
+					if tbl := e.tableOfVar(o); tbl != nil {
+						return e.tableLookup(tbl, k, c, true).Elts[1], true
+					}
+				}
+			}
+			m := e.eval(x.Args[0], c)
+			if m.GoT != nil {
+				if u, ok := m.GoT.Underlying().(*types.Map); ok {
+					return e.mapLoad(m, k, u, c, true).Elts[1], true
+				}
+			}
+			panic("spec: has() needs a map")
 		case "bytes":
 			// bytes(s): the byte sequence of a string, as a slice value without a heap cell
 			v := e.eval(x.Args[0], c)
